@@ -24,7 +24,7 @@ from props import PROPS  # noqa: E402
 def tier_params(tier):
     if tier == "thorough":
         return {"timeout_s": 3600, "mem_gb": 24, "workers": 6, "features": ["thorough"]}
-    return {"timeout_s": 900, "mem_gb": 16, "workers": 10, "features": []}
+    return {"timeout_s": 1500, "mem_gb": 16, "workers": 10, "features": []}
 
 
 def write_replay_file(pid, engine, harness, label, values, features, extra=None):
